@@ -15,6 +15,7 @@ from __future__ import annotations
 
 import ast
 import hashlib
+from fjsa import canon
 import os
 from dataclasses import dataclass, field
 from typing import Dict, Iterator, List, Optional, Sequence, Tuple
@@ -297,7 +298,7 @@ class Module:
     self.relpath = relpath
     self.src = src
     self.digest = hashlib.sha256(src.encode()).hexdigest()[:16]
-    self.tree = ast.parse(src, filename=path)
+    self.tree = canon.canonicalise(ast.parse(src, filename=path))
     self.scope = Scope('module', self.tree, None, name, self)
     self.funcs_by_node: Dict[ast.AST, FuncInfo] = {}
     self.classes_by_node: Dict[ast.AST, ClassInfo] = {}
